@@ -248,3 +248,131 @@ def child_reach_fresh(ctx, pid, fnames=None):
                                 breaks='the k-th child is given the product of the first k action probabilities instead of its own: wrong reach in the subtrees handed to worker tasks')
     if n == 0:
         ctx.anchor_lost(rule, 'per-child reach vectors in %s' % sorted(fnames or REACH_DERIVERS))
+
+
+def frontier_reach_form(ctx, pid):
+    """what the frontier expansion of the vanilla solver queues for a child, as a form over the popped
+    (node, chance reach c, player reach [p0, p1]) and the edge probability:
+      below a chance node:   (child, c * prob, [p0, p1])
+      below a player node:   (child, c, reach with exactly the *acting* player's component multiplied by prob)
+    Sites are `push((..))` and `extend(..map(|..| (..)))`; other shapes are not decided."""
+    import e4
+    rule = '%s.frontier-reach' % pid
+    lib = ctx.lib
+    f = ctx.fn('lib', 'solve::vanilla::thread_threshold', rule)
+    if f is None:
+        return
+    pops = [e for bi, t, e in q.calls_named(f, 'pop')]
+    if not pops:
+        ctx.anchor_lost(rule, 'thread_threshold: pop of the frontier queue')
+        return
+
+    def popfield(x):
+        """k if x is component k of the popped tuple"""
+        x = norm(x)
+        if x[0] == 'field' and x[2].isdigit():
+            y = norm(x[1])
+            if y[0] == 'field' and y[2] == '0':
+                z = norm(y[1])
+                if z[0] == 'downcast' and z[2] == 'Some' and norm(z[1])[0] == 'call' and any(norm(z[1])[3] == p_[3] for p_ in pops):
+                    return int(x[2])
+        return None
+
+    def reach_comp(x):
+        """k if x is component k of the popped player-reach array"""
+        x = norm(x)
+        if x[0] == 'cidx' and not x[3] and popfield(x[1]) == 2:
+            return x[2]
+        if x[0] == 'index' and x[2][0] == 'const' and popfield(x[1]) == 2:
+            return int(x[2][1])
+        return None
+
+    sites = []
+    for bi, t, e in q.calls_named(f, 'push'):
+        item = strip_refs(e[2][1])
+        if item[0] == 'agg' and item[1] == 'tuple' and len(item[2]) == 3:
+            sites.append((f, bi, f.conds(bi), item, None))
+    for bi, t, e in q.calls_named(f, 'extend'):
+        mp = q.find_sub(e[2][1], lambda x: q.is_call(x, 'map')) if len(e[2]) > 1 else None
+        if mp is None or len(mp[2]) < 2:
+            continue
+        cf, _ = q.closure_of(lib, mp[2][1])
+        if cf is None or not cf.is_closure:
+            continue
+        r = strip_refs(q.ret_expr(cf))
+        if r[0] == 'agg' and r[1] == 'tuple' and len(r[2]) == 3:
+            ctx.touch(cf)
+            sites.append((cf, bi, f.conds(bi), r, cf))
+    n = 0
+    for g, bi, cs, item, cf in sites:
+        arm = [c['variants'][0] for c in cs if c['kind'] == 'variant' and len(c['variants']) == 1 and c['variants'][0] in ('Chance', 'Player')]
+        if not arm:
+            continue
+        arm = arm[-1]
+        n += 1
+        res = (lambda x, cf=cf: q.resolve_captures(lib, cf, x)) if cf is not None else (lambda x: x)
+        c1, c2 = res(item[2][1]), item[2][2]
+        # chance-reach component
+        p1 = e4.try_poly(c1)
+        k1 = None
+        if p1 is not None and len(p1) == 1 and list(p1.values()) == [1.0]:
+            atoms = [a[1] for a in list(p1)[0] if a[0] == 'val']
+            has_c = sum(1 for a in atoms if popfield(a) == 1)
+            others = [a for a in atoms if popfield(a) != 1]
+            k1 = (has_c, len(others)) if len(atoms) == len(list(p1)[0]) else None
+        want1 = (1, 1) if arm == 'Chance' else (1, 0)
+        # player-reach component
+        how2 = None
+        x2 = strip_refs(c2)
+        if popfield(res(x2)) == 2:
+            how2 = 'unchanged'
+        elif x2[0] == 'var' and g.locals[x2[1]]['ty'] == '[f64; 2]':
+            # a local array: copied from the popped reach and scaled in place through ind_mut(node.num, ..), or
+            # an array literal per PlayerNum context
+            l = x2[1]
+            vals = q.multi_def_values(g, l)
+            copies = [v for _, _, v in vals if popfield(res(v)) == 2]
+            lits = [(cs_, strip_refs(v)) for _, cs_, v in vals if strip_refs(v)[0] == 'agg' and strip_refs(v)[1] == 'array']
+            if copies and not lits:
+                scaled = [e_ for bj, t_, e_ in q.calls_named(g, 'mul_assign') if q.is_call(strip_refs(e_[2][0]), 'ind_mut') and
+                          q.find_sub(strip_refs(e_[2][0])[2][1], lambda y: y == ('var', l, g.local_name(l))) is not None]
+                if len(scaled) == 1 and 'num' in facts.show(strip_refs(scaled[0][2][0])[2][0]):
+                    how2 = 'own-scaled'
+                elif not scaled:
+                    how2 = 'unchanged'
+                else:
+                    how2 = 'scaled-otherwise'
+            elif lits:
+                good = True
+                for cs_, lit in lits:
+                    pn = [c['variants'][0] for c in cs_ if c['kind'] == 'variant' and len(c['variants']) == 1 and c['variants'][0] in ('One', 'Two')]
+                    if not pn or len(lit[2]) != 2:
+                        good = None
+                        break
+                    acting = 0 if pn[-1] == 'One' else 1
+                    for k, el in enumerate(lit[2]):
+                        pe = e4.try_poly(res(el))
+                        if pe is None or len(pe) != 1 or list(pe.values()) != [1.0]:
+                            good = None
+                            break
+                        atoms = [a[1] for a in list(pe)[0] if a[0] == 'val']
+                        comps = [reach_comp(a) for a in atoms]
+                        base_ok = comps.count(k) == 1 and all(c_ is None or c_ == k for c_ in comps)
+                        n_other = sum(1 for c_ in comps if c_ is None)
+                        if not base_ok or n_other != (1 if k == acting else 0):
+                            good = False
+                    if good is None:
+                        break
+                how2 = None if good is None else ('own-scaled' if good else 'scaled-otherwise')
+        elif x2[0] == 'agg' and x2[1] == 'array':
+            how2 = None
+        want2 = 'unchanged' if arm == 'Chance' else 'own-scaled'
+        if k1 is None or how2 is None:
+            ctx.anchor_lost(rule, 'thread_threshold: reach of a queued child below a %s node (shape not recognised)' % arm.lower())
+            continue
+        ctx.verdict(k1 == want1 and how2 == want2, rule, '%s:%s' % (rule, arm.lower()),
+                    'a child queued below a chance node gets (chance reach * prob, player reaches unchanged); below a player node (chance reach unchanged, the acting player\'s reach * prob, the other player\'s unchanged)',
+                    f.where(bi), 'chance-reach factors (popped, other) = %s, expected %s; player reaches: %s, expected %s' % (k1, want1, how2, want2),
+                    breaks='subtrees handed to worker tasks are traversed with wrong reach probabilities: the multi-threaded result differs from the single-threaded one')
+    if n == 0:
+        ctx.anchor_lost(rule, 'thread_threshold: queued children')
